@@ -392,6 +392,105 @@ class Run:
 MODEL_EVENT_KINDS = ('begin:', 'end:', 'raised:', 'stop:', 'ret:')
 
 
+# ------------------------------------------------------------------ entry points
+def entry_point_run(chooser, n_clients, per_client):
+    """The property is about the queue the program's entry points share: `ls_module.queue_script`
+    (the scripting interface) owns a controller of its own.  Fresh module (as at program start),
+    `n_clients` threads each queueing `per_client` scripts through the entry point, every line of
+    job_control.py AND ls_module.py a switch point.  Oracle: queued scripts execute one at a time,
+    each exactly once, per client in the order that client queued them."""
+    import importlib
+    from bardolph.lib import job_control as jc
+    from bardolph.controller import ls_module
+    problems = []
+    events = []
+    running = []
+    s = sched.Scheduler(trace_files=[jc.__file__, ls_module.__file__], chooser=chooser, max_steps=6000,
+                        watchdog_s=20.0)
+
+    class EpJob(jc.Job):
+        def __init__(self, label):
+            self.label = label
+
+        def execute(self):
+            if running:
+                problems.append(('exclusion', 'script {} starts while script(s) {} execute '
+                                 '(queued through ls_module.queue_script)'.format(self.label, list(running))))
+            running.append(self.label)
+            events.append(('begin', self.label))
+            s.yield_point(('body',))
+            s.yield_point(('body',))
+            events.append(('end', self.label))
+            running.remove(self.label)
+
+    class FakeScriptJob:
+        @staticmethod
+        def from_string(text):
+            return EpJob(text)
+
+    with s.patched(jc):
+        importlib.reload(ls_module)         # program start: the module's controller is created now
+        with s.patched(ls_module, threading=False, extra={'ScriptJob': FakeScriptJob}):
+            def client(i):
+                def go():
+                    for k in range(per_client):
+                        if k:
+                            s.yield_point(('idle',))
+                        ls_module.queue_script('{}.{}'.format(i, k))
+                return go
+            for i in range(n_clients):
+                s.add_thread('c{}'.format(i), client(i))
+            res = s.run()
+    importlib.reload(ls_module)
+    for tid, ex in res.exceptions.items():
+        problems.append(('controller-call-raises', '{} escaped from thread {}: {}'.format(
+            type(ex).__name__, tid, ex)))
+    if res.deadlock:
+        problems.append(('deadlock', 'no thread can run: {}'.format(res.blocked)))
+    elif res.aborted:
+        raise InfraError('entry-point run cut off after {} steps'.format(len(res.steps)))
+    elif not res.exceptions:
+        want = {'{}.{}'.format(i, k) for i in range(n_clients) for k in range(per_client)}
+        begun = [l for e, l in events if e == 'begin']
+        if sorted(begun) != sorted(want):
+            problems.append(('not-exactly-once', 'scripts executed {} instead of each of {} once'.format(
+                sorted(begun), sorted(want))))
+        for i in range(n_clients):
+            mine = [l for l in begun if l.startswith('{}.'.format(i))]
+            if mine != sorted(mine):
+                problems.append(('order', 'client {} queued its scripts in order, they started as {}'.format(i, mine)))
+    return res, problems
+
+
+def entry_points(chk, rng, dist):
+    runs = [0]
+    found = []
+
+    def one(chooser, shape):
+        res, problems = entry_point_run(chooser, *shape)
+        runs[0] += 1
+        chk.count()
+        if problems and not found:
+            sig, text = problems[0]
+            found.append(sig)
+            chk.violation(sig, text + ' [entry point ls_module.queue_script, {} clients x {} scripts]'.format(*shape),
+                          {'entry_point': 'bardolph.controller.ls_module.queue_script', 'clients': shape[0],
+                           'scripts_per_client': shape[1], 'schedule': res.schedule})
+        elif not problems:
+            chk.nontrivial_case(('ep', shape, tuple(res.schedule)))
+        return res
+    # every schedule with at most 2 pre-emptions for two clients with one script each …
+    sched.explore_bounded(lambda ch: one(ch, (2, 1)), 2, max_runs=4000 if chk.thorough else 600,
+                          on_result=lambda r: bool(found))
+    # … and random schedules for larger shapes
+    for _ in range(400 if chk.thorough else 60):
+        if found:
+            break
+        shape = rng.choice([(2, 1), (2, 2), (3, 1), (3, 2)])
+        one(sched.RandomChooser(rng, stay=rng.choice([0.0, 0.5, 0.8])), shape)
+    dist['entry_point_runs'] = runs[0]
+
+
 def run_case(jc_mod, scn, chooser, observe=True):
     run = Run(jc_mod, scn, chooser, observe)
     try:
@@ -510,6 +609,9 @@ def main():
         n_sys += n
     dist['systematic'] = {'schedules': n_sys, 'per_scenario': per_scn_counts}
 
+    # ---- 2b. the entry point that owns a controller of its own
+    entry_points(chk, rng, dist)
+
     # ---- 3. correspondence with the Lean transition system, step by step
     answers = chk.driver.ask_many([('jc.replay', a) for a, _, _ in requests]) if requests else []
     n_dis = 0
@@ -535,7 +637,10 @@ def main():
         'stop_*/has_jobs/is_running calls, bodies that finish/raise/wait for a stop) run on the '
         'real JobControl; non-trivial = distinct (scenario, schedule) with at least one thread '
         'switch; systematic part = every schedule with at most 1-3 pre-emptions (see '
-        'distribution.systematic) of {} fixed scenarios'.format(len(FIXED_SCENARIOS)))
+        'distribution.systematic) of {} fixed scenarios; plus the entry point '
+        'ls_module.queue_script on a freshly loaded module: every schedule with at most 2 '
+        'pre-emptions of two clients (lines of ls_module.py are switch points too) and random '
+        'schedules of up to 3 clients x 2 scripts'.format(len(FIXED_SCENARIOS)))
     chk.assumptions += [
         'thread switches are explored at source-line granularity (sys.settrace line events); '
         'switches inside a line (e.g. between the two reads of _active_agent in is_running) are not',
